@@ -225,6 +225,13 @@ func runC11(m *Sim) {
 			m.Fail("C11.banned-choice", site, "at start-up the client chose %s as its primary server, which it knows to be banned (known=%v), although a non-banned server is configured", RoleOf(st.PrimaryServer), ok)
 		}
 	}
+	// Swarm: a seeded subset of the client's between-critical-sections sites
+	// parks too, so overlapping rounds and the send loop interleave at them.
+	for _, site := range []string{"csync.predial", "csync.postdial", "csync.premerge", "csync.postmerge"} {
+		if m.C.Chance("site-"+site, 1, 3) {
+			w.S.EnableSites(site)
+		}
+	}
 	if err := cl.Start(); err != nil {
 		m.Fail("C11.start", "client", "client does not start: %v", err)
 	}
